@@ -331,7 +331,10 @@ class ExceptionFormatter:
 
             if filename and not filename.startswith('<') and line and column:
                 try:
-                    f = open(filename)
+                    # The file need not be in the locale's encoding:
+                    # the excerpt may get escapes, the message is
+                    # produced all the same.
+                    f = open(filename, errors="backslashreplace")
                 except OSError:
                     pass
                 else:
